@@ -1140,6 +1140,10 @@ func genSpec(rt *rapid.T) string {
 	for i := 0; i < n; i++ {
 		opts = append(opts, rapid.SampledFrom(presentation).Draw(rt, "opt"))
 	}
+	// struct-likes stored by value in containers: another shape of the same codec
+	if rapid.IntRange(0, 1).Draw(rt, "valuetype") == 0 {
+		opts = append(opts, "value_type_in_container")
+	}
 	if len(opts) == 0 {
 		return "fastgo"
 	}
